@@ -9,6 +9,15 @@ the property is checked directly on Python's output with an independent Python o
 sort by the lexicographic BSON order of the key tuples, then a contiguous slice) and by
 comparing the entry points with one another.
 
+Natural order must not depend on the FILTER: the cases query through every shape of filter (empty,
+conditions on other fields, ranges over _id, and filters that pin _id — `{'_id': x}`,
+`{'_id': {'$in': [...]}}` with the list in any order, with duplicates and absent values, alone or
+next to other conditions, under $and / $or / $nin).  Which documents a filter matches is taken
+from the real code as a SET (that is C01's business; the model's own `filterApplies` answers it on
+the Lean side); the ORDER the oracles build on is the order of insertion (`selected_docs`), and
+an unsorted find under the filter, find_one, a leading $match and filtered reads after a write
+history are judged against it directly.
+
 The model's value universe has no binary data, uuid, regular expression or non-finite double.
 Sort keys of EVERY kind of value `bson_compare` orders (those included, and embedded documents
 and arrays of them) are checked by a python-only oracle: the same call sequences over collections
@@ -35,8 +44,12 @@ from c11_order import Outside
 RULE = ('case = one call sequence (find with sort/skip/limit arguments followed by 0-4 cursor '
         'method calls or slices and a full iteration or an index; or count_documents with '
         'skip/limit; or an aggregate of $sort/$skip/$limit stages; or a write history followed '
-        'by find()) over a collection of 0-8 documents with mixed BSON types and missing values '
-        'under 1-3 sort keys; compared by _id sequence; non-trivial = the case sorts, at least '
+        'by find() and by a read through a filter on _id) over a collection of 0-8 documents '
+        'with mixed BSON types and missing values under 1-3 sort keys, queried through an empty '
+        'filter, conditions on other fields, ranges over _id, or a filter that pins _id to listed '
+        'values ($in lists in any order with duplicates and absent values, alone / next to other '
+        'conditions / under $and, $or, $nin); compared by _id sequence against the stable sort '
+        'and slice of the matching documents TAKEN IN INSERTION ORDER; non-trivial = the case sorts, at least '
         'two selected documents tie under the first sort key and the first key sees at least two '
         'BSON type classes (for histories: at least one rewrite or delete of a document that is '
         'not the last); distinct = by hash of the wire line of the case; '
@@ -123,9 +136,7 @@ class G(object):
                     vals.append(self.f_value())
             alpha[f] = vals
         pmiss = r.choice([0.0, 0.15, 0.3])
-        ids = list(range(n))
-        if r.random() < 0.15:
-            ids = r.sample([0, 1, 2, 3, 4, 5, 6, 7, 8, 9, 'a', 'b', 1.5], n)
+        ids = self.draw_ids(n)
         out = []
         for i in range(n):
             d = {'_id': ids[i]}
@@ -134,6 +145,18 @@ class G(object):
                     d[f] = copy.deepcopy(r.choice(alpha[f]))
             out.append(d)
         return out, profile
+
+    def draw_ids(self, n):
+        """_ids in the order of insertion: 0..n-1, or numbers / strings / supplied ObjectIds in an
+        order that is not the order of their values"""
+        r = self.r
+        x = r.random()
+        if x < 0.78:
+            return list(range(n))
+        pool = [0, 1, 2, 3, 4, 5, 6, 7, 8, 9, 'a', 'b', 1.5]
+        if x < 0.9:
+            return r.sample(pool, n)
+        return r.sample(pool + [self.oids.make(20 + i) for i in range(6)], n)
 
     def sort_spec(self, profile, allow_none=True):
         r = self.r
@@ -180,16 +203,87 @@ class G(object):
             return ['slice', a, b]
         return [r.choice(['clone', 'rewind'])]
 
-    def filter(self):
+    def filter(self, docs=()):
+        """natural order does not depend on the filter: every shape of filter is drawn — empty,
+        conditions on other fields, ranges over _id, and filters that pin _id to listed values
+        (`id_filter`)"""
         r = self.r
         x = r.random()
-        if x < 0.7:
+        if x < 0.5:
             return {}
-        if x < 0.8:
+        if x < 0.56:
             return {'a': {'$exists': True}}
-        if x < 0.9:
+        if x < 0.62:
             return {'_id': {'$gte': 1}}
-        return {'b': r.choice([None, 1, 'a'])}
+        if x < 0.68:
+            return {'b': r.choice([None, 1, 'a'])}
+        return self.id_filter(docs)
+
+    def other_cond(self):
+        r = self.r
+        return r.choice([('a', {'$exists': True}), ('b', {'$exists': True}),
+                         ('c', {'$ne': 'no-such-value'}), ('b', {'$nin': []}),
+                         ('a', {'$exists': False}), ('b', r.choice([None, 1, 'a']))])
+
+    def id_values(self, docs):
+        """values for a filter on _id: ids of the collection in ANY order (not the order of
+        insertion), some of them repeated, next to values no document has and to the same number
+        written as a double"""
+        r = self.r
+        ids = [d['_id'] for d in docs]
+        absent = [99, 'zz', None, -7, self.oids.make(7)]
+        k = r.choice([1, 2, 2, 3, 3, 4, 5, 6])
+        vals = r.sample(ids, min(k, len(ids)))
+        if vals and r.random() < 0.35:
+            vals += [r.choice(vals) for _ in range(r.choice([1, 1, 2]))]       # duplicates
+        if r.random() < 0.35:
+            vals += [r.choice(absent) for _ in range(r.choice([1, 2]))]
+        if r.random() < 0.2:
+            vals = [float(v) if type(v) is int and r.random() < 0.5 else v for v in vals]
+        x = r.random()
+        if x < 0.6:
+            r.shuffle(vals)
+        elif x < 0.8:
+            vals.sort(key=lambda v: -ids.index(v) if v in ids else 1)          # reverse order
+        return copy.deepcopy(vals)
+
+    def id_filter(self, docs):
+        """filters that pin _id: {'_id': x}, {'_id': {'$in': [...]}} (the list in any order, with
+        duplicates and absent values), alone, next to other conditions (before / after the _id
+        key), with further operators on _id, under $and, as $or of _id equalities, negated"""
+        r = self.r
+        vals = self.id_values(docs)
+        one = vals[0] if vals else 0
+        x = r.random()
+        if x < 0.08:
+            return {'_id': one}
+        if x < 0.12:
+            return {'_id': {'$eq': one}}
+        if x < 0.42:
+            return {'_id': {'$in': vals}}
+        if x < 0.58:
+            k, c = self.other_cond()
+            if r.random() < 0.5:
+                return {'_id': {'$in': vals}, k: c}
+            return {k: c, '_id': {'$in': vals}}
+        if x < 0.66:
+            extra = r.choice([('$ne', 99), ('$nin', [one]), ('$exists', True), ('$gte', 0)])
+            f = {'$in': vals, extra[0]: extra[1]}
+            if r.random() < 0.5:
+                f = dict(reversed(list(f.items())))
+            return {'_id': f}
+        if x < 0.8:
+            alts = [{'_id': v} for v in vals] or [{'_id': 0}]
+            if r.random() < 0.3:
+                k, c = self.other_cond()
+                alts.insert(r.randrange(len(alts) + 1), {k: c, '_id': {'$in': list(vals)}})
+            return {'$or': alts}
+        if x < 0.88:
+            k, c = self.other_cond()
+            return {'$and': [{'_id': {'$in': vals}}, {k: c}]}
+        if x < 0.94:
+            return {'_id': {'$nin': vals}}
+        return {'_id': {'$in': vals}, '$or': [{'_id': v} for v in reversed(vals)] or [{}]}
 
 
 # every kind of value bson_compare orders (mongomock/filtering.py `_get_compare_type`): the kinds
@@ -269,9 +363,7 @@ class WG(G):
             kinds = self.w_kinds()
             alpha[f] = [self.w_value(kinds) for _ in range(r.choice([2, 3, 3, 4, 5, 6]))]
         pmiss = r.choice([0.0, 0.1, 0.25])
-        ids = list(range(n))
-        if r.random() < 0.15:
-            ids = r.sample([0, 1, 2, 3, 4, 5, 6, 7, 8, 9, 'a', 'b', 1.5], n)
+        ids = self.draw_ids(n)
         out = []
         for i in range(n):
             d = {'_id': ids[i]}
@@ -296,7 +388,7 @@ def gen_scenario(rng, gcls=None):
     g = (gcls or G)(rng)
     docs, profile = g.docs()
     n = len(docs)
-    filt = g.filter()
+    filt = g.filter(docs)
     cases = []
     # a consistent family: the same settings through every entry point
     spec = g.sort_spec(profile)
@@ -312,12 +404,14 @@ def gen_scenario(rng, gcls=None):
             if dedup_keys(plain) == plain:
                 cases.append(('agg', [['sort', plain], ['skip', s], ['limit', l]]))
     cases.append(('count', filt, s, l))
-    # random call sequences
+    # random call sequences (under the scenario's filter, or under one that pins _id)
+    filt2 = filt if rng.random() < 0.6 else g.id_filter(docs)
     for _ in range(rng.choice([2, 3, 4])):
         spec2 = g.sort_spec(profile)
         ops = [g.cursor_op(n, profile) for _ in range(rng.choice([0, 1, 1, 2, 3, 4]))]
         final = None if rng.random() < 0.85 else g.num(n, 0.1)
-        cases.append(('find', filt, spec2, g.num(n, 0.03), g.num(n, 0.25), ops, final))
+        cases.append(('find', rng.choice([filt, filt2]), spec2, g.num(n, 0.03), g.num(n, 0.25),
+                      ops, final))
     # empty slices and boundaries
     if rng.random() < 0.3:
         a = g.num(n)
@@ -508,7 +602,7 @@ def py_history(ops):
                     mops.append(['del', k])
         except mongomock.DuplicateKeyError:
             pass
-    return mops, list(coll.find())
+    return mops, list(coll.find()), coll
 
 
 # ------------------------------------------------------------------------------------------
@@ -827,8 +921,51 @@ class Judge(object):
         return 'violation'
 
 
-def selected_docs(coll, filt):
-    return list(coll.find(copy.deepcopy(filt)))
+def idkey(v):
+    """an _id as a hashable key that tells 1, 1.0, True and '1' apart"""
+    return (type(v).__name__, repr(v))
+
+
+def ids_of(docs):
+    return [d['_id'] for d in docs]
+
+
+NATURAL_WHAT = ('without a sort, the documents a filter selects do not come back in insertion '
+                'order, each once (natural order must not depend on the filter)')
+
+
+def stored_docs(ctx, sc, coll, render):
+    """the stored documents in natural order; stated directly: find() without filter and sort
+    gives the documents in the order in which they were inserted"""
+    stored = list(coll.find())
+    if [idkey(i) for i in ids_of(stored)] != [idkey(i) for i in ids_of(sc['docs'])]:
+        case = ('find', {}, None, 0, 0, [], None)
+        ctx.violation(dict(render(sc, case), kind=NATURAL_WHAT, py=wire.pretty(ids_of(stored)),
+                           expected=wire.pretty(ids_of(sc['docs']))))
+    return stored
+
+
+def natural_selection(coll, filt, stored=None):
+    """(the stored documents the filter matches, in natural order; the ids an unsorted find
+    under the filter gives)"""
+    stored = list(coll.find()) if stored is None else stored
+    matched = ids_of(coll.find(copy.deepcopy(filt)))
+    keys = {idkey(i) for i in matched}
+    return [d for d in stored if idkey(d['_id']) in keys], matched
+
+
+def selected_docs(ctx, sc, coll, filt, stored, render):
+    """the documents the rules speak about: WHICH documents a filter matches is the filter's
+    business (C01) and is taken from the real code as a set; their ORDER is the order of
+    insertion, whatever the filter looks like — an unsorted find under the filter is judged
+    against that here, and everything the cases build on it (sort ties, $natural, skip / limit
+    / slices, counts) is judged against this sequence by the oracles"""
+    sel, matched = natural_selection(coll, filt, stored)
+    if [idkey(i) for i in matched] != [idkey(i) for i in ids_of(sel)]:
+        case = ('find', filt, None, 0, 0, [], None)
+        ctx.violation(dict(render(sc, case), kind=NATURAL_WHAT, py=wire.pretty(matched),
+                           expected=wire.pretty(ids_of(sel))))
+    return sel
 
 
 def run_scenarios(ctx, scs, judge, stats):
@@ -840,7 +977,7 @@ def run_scenarios(ctx, scs, judge, stats):
         except wire.Unencodable:
             continue
         coll = mk_coll(sc['docs'])
-        stored = list(coll.find())
+        stored = stored_docs(ctx, sc, coll, render)
         sel_cache = {}
         fam = []
         for case, line in zip(sc['cases'], sc_lines):
@@ -855,7 +992,8 @@ def run_scenarios(ctx, scs, judge, stats):
             py_oracle = None
             fk = json.dumps(wire.pretty(case[1])) if case[0] != 'agg' else '{}'
             if fk not in sel_cache:
-                sel_cache[fk] = selected_docs(coll, case[1]) if case[0] != 'agg' else stored
+                sel_cache[fk] = selected_docs(ctx, sc, coll, case[1], stored, render) \
+                    if case[0] != 'agg' else stored
             sel = sel_cache[fk]
             try:
                 if case[0] == 'find':
@@ -873,7 +1011,7 @@ def run_scenarios(ctx, scs, judge, stats):
             meta.append((sc, case, line, canon_py(py, sc['oids']), py_oracle, sel))
             fam.append((case, py))
         # the entry points agree with one another (first cases of the scenario are one family)
-        check_family(ctx, sc, fam)
+        check_family(ctx, sc, fam, coll=coll)
     outs = wire.run_driver(lines)
     for (sc, case, line, py, py_oracle, sel), o in zip(meta, outs):
         if o.startswith('?'):
@@ -907,15 +1045,18 @@ def effective_sort(case):
         return None
 
 
-def check_family(ctx, sc, fam, render=None):
-    """find(sort=,skip=,limit=) = .sort().skip().limit() = negative limit = slice = aggregate,
-    and count_documents = the length (stated on python's outputs alone)"""
+def check_family(ctx, sc, fam, render=None, coll=None):
+    """find(sort=,skip=,limit=) = .sort().skip().limit() = negative limit = slice = aggregate
+    (with the filter as a leading $match) and find_one = its first document, and
+    count_documents = the length (stated on python's outputs alone)"""
     render = render or globals()['render']
     if not fam or fam[0][0][0] != 'find':
         return
     base = fam[0][1]
     if not isinstance(base, list):
         return
+    if coll is not None:
+        check_other_entry_points(ctx, sc, coll, fam[0][0], base, render)
     for case, py in fam[1:]:
         if case[0] == 'count' and case[1] == fam[0][0][1] and case[2] == fam[0][0][3] \
                 and case[3] == fam[0][0][4]:
@@ -934,6 +1075,38 @@ def check_family(ctx, sc, fam, render=None):
             # the constructor form worked, an equivalent call sequence raised
             ctx.violation(dict(render(sc, case), kind='an equivalent call sequence raises',
                                this=py, find_with_arguments=wire.pretty(base)))
+
+
+def check_other_entry_points(ctx, sc, coll, case, base, render):
+    """python-only, for every filter shape: find_one(filter, sort=, skip=) is the first document
+    of find(filter, sort=, skip=, limit=l) (l >= 1), and aggregate([$match filter, $sort, $skip,
+    $limit]) is that very list"""
+    _, filt, spec, skip, limit, ops, final = case
+    if limit < 1 or ops or final is not None:
+        return
+    try:
+        one = coll.find_one(copy.deepcopy(filt), sort=as_sort(spec), skip=skip)
+        got = None if one is None else [one['_id']]
+    except Exception as e:  # pylint: disable=broad-except
+        got = '!' + wire.err_name(e)
+    want = [base[0]] if base else None
+    if got != want:
+        ctx.violation(dict(render(sc, case), kind='find_one(filter, sort, skip) is not the first '
+                           'document of find(filter, sort, skip)', find_one=wire.pretty(got),
+                           find_with_arguments=wire.pretty(base)))
+    if filt and spec and not any(k.startswith('$') for k, _ in spec) \
+            and dedup_keys(spec) == spec:
+        pipeline = [{'$match': copy.deepcopy(filt)},
+                    {'$sort': collections.OrderedDict((k, d) for k, d in spec)},
+                    {'$skip': skip}, {'$limit': limit}]
+        try:
+            agg = ids_of(coll.aggregate(pipeline))
+        except Exception as e:  # pylint: disable=broad-except
+            agg = '!' + wire.err_name(e)
+        if agg != base:
+            ctx.violation(dict(render(sc, case), kind='aggregate([$match filter, $sort, $skip, '
+                               '$limit]) is not find(filter, sort, skip, limit)',
+                               aggregate=wire.pretty(agg), find_with_arguments=wire.pretty(base)))
 
 
 # ------------------------------------------------------------------------------------------
@@ -1022,7 +1195,7 @@ def run_wide(ctx, scs, wj):
     order; deviations in a listed class (c11_order.FINDING_TEXT) are known findings"""
     for sc in scs:
         coll = mk_coll(sc['docs'])
-        stored = list(coll.find())
+        stored = stored_docs(ctx, sc, coll, render_wide)
         sel_cache = {}
         fam = []
         wj.n['scenarios'] += 1
@@ -1044,7 +1217,7 @@ def run_wide(ctx, scs, wj):
             else:
                 fk = repr(case[1])
                 if fk not in sel_cache:
-                    sel_cache[fk] = selected_docs(coll, case[1])
+                    sel_cache[fk] = selected_docs(ctx, sc, coll, case[1], stored, render_wide)
                 sel = sel_cache[fk]
             exp = wide_expected(sel, case)
             if exp is None:
@@ -1082,7 +1255,7 @@ def run_wide(ctx, scs, wj):
                                 {'binary', 'regex'} & set(seen)):
                             wj.samples.append(dict(render_wide(sc, case), wide=None,
                                                    python=wire.pretty(py)))
-        check_family(ctx, sc, fam, render_wide)
+        check_family(ctx, sc, fam, render_wide, coll=coll)
 
 
 def wide_encodable(sc):
@@ -1094,15 +1267,42 @@ def wide_encodable(sc):
         return False
 
 
+def history_reads(ctx, rng, ops, final, coll, filters=None):
+    """python-only: after a write history, reading through a filter that pins _id (ids listed in
+    any order) gives the surviving documents in the order find() shows them — rewrites moved
+    nothing, whatever the filter; stated on the ids, find_one is the first of them"""
+    ids = ids_of(final)
+    if filters is None:
+        if len(ids) < 2:
+            return
+        vals = rng.sample(ids, rng.randint(2, len(ids)))
+        if rng.random() < 0.3:
+            vals.append(rng.choice(vals))
+        filters = [rng.choice([{'_id': {'$in': vals}}, {'$or': [{'_id': v} for v in vals]},
+                               {'_id': {'$in': vals}, 'zz': {'$exists': False}}])]
+    for filt in filters:
+        _sel, got = natural_selection(coll, filt, final)
+        want = ids_of(_sel)
+        one = coll.find_one(copy.deepcopy(filt))
+        if [idkey(i) for i in got] != [idkey(i) for i in want] or \
+                (one is None) != (not want) or (want and idkey(one['_id']) != idkey(want[0])):
+            ctx.violation({'kind': 'after a write history, ' + NATURAL_WHAT,
+                           'history': wire.pretty(ops), 'read_filter': wire.pretty(filt),
+                           'python': wire.pretty(got), 'expected': wire.pretty(want),
+                           'find_one': wire.pretty(one), 'find_all': wire.pretty(ids)},
+                          rank=2000 + len(json.dumps(wire.pretty(ops))))
+
+
 def run_histories(ctx, n, rng, judge, stats):
     lines, meta = [], []
     for _ in range(n):
         ops = gen_history(rng)
         oids = wire.Oids()
-        mops, final = py_history(ops)
+        mops, final, coll = py_history(ops)
         line = 'c11 hist ' + wire.encs(mops, oids)
         lines.append(line)
         meta.append((ops, mops, final, oids, line))
+        history_reads(ctx, rng, ops, final, coll)
     outs = wire.run_driver(lines)
     for (ops, mops, final, oids, line), o in zip(meta, outs):
         impl, spec, _ = parse_out(o)
@@ -1279,7 +1479,9 @@ def replay(ctx, path):
     if 'history' in e:
         ops = e['history']
         oids = wire.Oids()
-        mops, final = py_history(ops)
+        mops, final, coll = py_history(ops)
+        if 'read_filter' in e:
+            history_reads(ctx, None, ops, final, coll, [e['read_filter']])
         line = 'c11 hist ' + wire.encs(mops, oids)
         impl, spec, _ = parse_out(wire.run_driver([line])[0])
         ok = impl == wire.encs(final, oids) and spec == wire.encs([d['_id'] for d in final], oids)
@@ -1293,7 +1495,7 @@ def replay(ctx, path):
         sc, case = wide_case_of(e)
         run_wide(ctx, [sc], WideJudge(ctx))
         py, _ = py_case(mk_coll(sc['docs']), case)
-        exp = wide_expected(selected_docs(mk_coll(sc['docs']), case[1])
+        exp = wide_expected(natural_selection(mk_coll(sc['docs']), case[1])[0]
                             if case[0] != 'agg' else list(mk_coll(sc['docs']).find()), case)
         print(json.dumps({'python': wire.pretty(py if not isinstance(py, tuple) else py[1]),
                           'expected': wire.pretty(exp if not isinstance(exp, tuple) else exp[1]),
@@ -1314,7 +1516,7 @@ def replay_finding(ctx, e):
         sc, case = wide_case_of(e['witness'])
         coll = mk_coll(sc['docs'])
         py, _ = py_case(coll, case)
-        sel = list(coll.find()) if case[0] == 'agg' else selected_docs(coll, case[1])
+        sel = list(coll.find()) if case[0] == 'agg' else natural_selection(coll, case[1])[0]
         return wide_norm(py) != wide_norm(wide_expected(sel, case))
     sc, case = case_of_line(e['witness']['line'])
     py, _ = py_case(mk_coll(sc['docs']), case)
